@@ -1559,3 +1559,129 @@ func H_C12_HasManyRef(shape int) {
 	}
 	verifrt.Observe("log", s.Kinds())
 }
+
+// ---- the targets of an operation are elements of the record's own in-memory relation
+// field (pointers into its slice, in any order)
+
+func N_C12_OwnElements(tier int) int { return 2 }
+
+func H_C12_OwnElements(shape int) {
+	m2m := shape == 1
+	mdb := NewMemDB()
+	var child *mtable
+	var join *mtable
+	s := NewStore()
+	s.OnExecE = mdb.Exec
+	s.OnQuery = mdb.Query
+	db := openReal(stubDialector{nullDefault: true}, s, nil)
+	kind := verifrt.Concretize(verifrt.Intn("kind", 0, 4), 0, 4)
+	names := []string{"Replace-reversed", "Replace-second", "Append-reversed", "Delete-first", "Replace-second-first-third"}
+	label := "own-elements." + names[kind]
+	if m2m {
+		label = "own-elements-many2many." + names[kind]
+	}
+	verifrt.Tag(label)
+	defer func() { mdb.Dump(label) }()
+	var want []int
+	switch kind {
+	case 0, 2:
+		want = []int{2, 3, 4}
+	case 1:
+		want = []int{3}
+	case 3:
+		want = []int{3, 4}
+	case 4:
+		want = []int{2, 3, 4}
+	}
+	if kind == 0 {
+		want = []int{3, 2}
+	}
+	var err error
+	var mem []int
+	var n int64
+	var got []int
+	if !m2m {
+		owners := mdb.AddTable("owners", []string{"id", "name", "companyid"}, []string{"id"})
+		owners.AddRow(1, "o", nil)
+		child = mdb.AddTable("pets", []string{"id", "ownerid", "name"}, []string{"id"})
+		for _, id := range []int{2, 3, 4} {
+			child.AddRow(id, 1, "p")
+		}
+		mdb.Snapshot()
+		o := Owner{ID: 1, Name: "o", Pets: []Pet{{ID: 2, OwnerID: 1, Name: "p"}, {ID: 3, OwnerID: 1, Name: "p"}, {ID: 4, OwnerID: 1, Name: "p"}}}
+		a := db.Model(&o).Association("Pets")
+		switch kind {
+		case 0:
+			err = a.Replace(&o.Pets[1], &o.Pets[0])
+		case 1:
+			err = a.Replace(&o.Pets[1])
+		case 2:
+			err = a.Append(&o.Pets[2], &o.Pets[0])
+		case 3:
+			err = a.Delete(&o.Pets[0])
+		case 4:
+			err = a.Replace(&o.Pets[1], &o.Pets[0], &o.Pets[2])
+		}
+		for _, p := range o.Pets {
+			mem = append(mem, int(p.ID))
+		}
+		n = db.Model(&Owner{ID: 1}).Association("Pets").Count()
+		var found []Pet
+		verifrt.Assert(db.Model(&Owner{ID: 1}).Association("Pets").Find(&found) == nil, "C12.error:"+label)
+		for _, p := range found {
+			got = append(got, int(p.ID))
+		}
+		// stored links
+		ci := child.colIdx("ownerid")
+		for _, r := range child.rows {
+			linked := !r[ci].null && r[ci].i == 1
+			verifrt.Assert(linked == containsInt(want, r[0].i), "C12.stored-links:"+label)
+		}
+		verifrt.Assert(len(child.rows) == 3, "C12.rows-lost-or-added:"+label)
+	} else {
+		speakers := mdb.AddTable("speakers", []string{"id", "name"}, []string{"id"})
+		speakers.AddRow(1, "s")
+		child = mdb.AddTable("langs", []string{"id", "name"}, []string{"id"})
+		join = mdb.AddTable("speaker_langs", []string{"speakerid", "langid"}, []string{"speakerid", "langid"})
+		for _, id := range []int{2, 3, 4} {
+			child.AddRow(id, "e")
+			join.AddRow(1, id)
+		}
+		mdb.Snapshot()
+		sp := Speaker{ID: 1, Name: "s", Langs: []Lang{{ID: 2, Name: "e"}, {ID: 3, Name: "e"}, {ID: 4, Name: "e"}}}
+		a := db.Model(&sp).Association("Langs")
+		switch kind {
+		case 0:
+			err = a.Replace(&sp.Langs[1], &sp.Langs[0])
+		case 1:
+			err = a.Replace(&sp.Langs[1])
+		case 2:
+			err = a.Append(&sp.Langs[2], &sp.Langs[0])
+		case 3:
+			err = a.Delete(&sp.Langs[0])
+		case 4:
+			err = a.Replace(&sp.Langs[1], &sp.Langs[0], &sp.Langs[2])
+		}
+		for _, p := range sp.Langs {
+			mem = append(mem, int(p.ID))
+		}
+		n = db.Model(&Speaker{ID: 1}).Association("Langs").Count()
+		var found []Lang
+		verifrt.Assert(db.Model(&Speaker{ID: 1}).Association("Langs").Find(&found) == nil, "C12.error:"+label)
+		for _, p := range found {
+			got = append(got, int(p.ID))
+		}
+		li := join.colIdx("langid")
+		verifrt.Assert(len(join.rows) == len(want), "C12.stored-links:"+label)
+		for _, r := range join.rows {
+			verifrt.Assert(containsInt(want, r[li].i), "C12.stored-links:"+label)
+		}
+		verifrt.Assert(len(child.rows) == 3, "C12.rows-lost-or-added:"+label)
+	}
+	verifrt.Reach("op-applied")
+	verifrt.Assert(err == nil, "C12.error:"+label)
+	verifrt.Assert(n == int64(len(want)), "C12.count:"+label)
+	c12SameSet(got, want, "C12.find:"+label)
+	c12SameSet(mem, want, "C12.in-memory:"+label)
+	verifrt.Observe("log", s.Kinds())
+}
